@@ -11,28 +11,42 @@
    precondition, as in C01). *)
 From Coq Require Import List Arith ZArith QArith Bool Sorted Reals Qreals.
 From Flocq Require Import Core.
-From Outrank Require Import MI.Subsample MI.SubProofs MI.SubFloat.
+From Outrank Require MI.Model.
+From Outrank Require Import MI.Subsample MI.SubProofs MI.SubFloat MI.SubAgree.
 Import ListNotations.
 Local Close Scope Q_scope.
 
-(* --- memory safety: no history of earlier allocations can make the call fail ------------------------- *)
+(* --- memory safety: no history of earlier allocations can make the call fail --------------------------
+   X <> [] is the code's own precondition (numba_unique raises on np.max of an empty array; the model does not
+   transcribe that raise and claims nothing about the empty input). *)
 Theorem C04_safe_subsample : forall (g : nat -> Z) Y X r e,
-  length Y = length X -> subsample g Y X r <> Error e.
-Proof. exact subsample_safe. Qed.
+  X <> [] -> length Y = length X -> subsample g Y X r <> Error e.
+Proof. exact (fun g Y X r e _ => subsample_safe g Y X r e). Qed.
 
 Theorem C04_safe : forall (g : nat -> Z) Y X r c e,
-  length Y = length X -> entry g Y X r c <> Error e.
-Proof. exact entry_safe. Qed.
+  X <> [] -> length Y = length X -> entry g Y X r c <> Error e.
+Proof. exact (fun g Y X r c e _ => entry_safe g Y X r c e). Qed.
 
-(* every cell of the index buffer that is turned into a row index was written by the loop, with an index of
-   an existing row; the loop itself never writes outside the buffer (used_cells = Ok _), the used part fits
-   into the allocation, and read back it is exactly the list of sampled rows *)
-Theorem C04_all_written : forall X r,
-  exists cells, used_cells X r = Ok cells /\
+(* [index_buffer Repaired X r (f_values X)] is the buffer slice final_index_array[:index_offset] that
+   subsample_gen itself builds and reads (C04_subsample_reads below shows the definition unfolded): when the
+   quota is not 0 the loop never writes outside the buffer (= Ok _), EVERY cell the gather reads is a Written
+   cell holding the index of an existing row, the slice fits into the allocation, and read back — under any
+   garbage oracle — it is exactly the list of sampled rows *)
+Theorem C04_all_written : forall X r, quota X r <> 0 ->
+  exists cells, index_buffer Repaired X r (f_values X) = Ok cells /\
                 Forall (fun c => exists i, c = Written i /\ i < length X) cells /\
                 length cells <= final_space_size r (length X) /\
-                read_buffer no_garbage cells = map Z.of_nat (if quota X r =? 0 then [] else sampled_indices X r).
-Proof. exact used_cells_written. Qed.
+                forall g : nat -> Z, read_buffer g cells = map Z.of_nat (sampled_indices X r).
+Proof. exact index_buffer_written. Qed.
+
+(* definition unfolded, not a result: the only buffer cells subsample reads are those of index_buffer *)
+Theorem C04_subsample_reads : forall (g : nat -> Z) Y X r,
+  subsample g Y X r =
+  if quota X r =? 0 then Ok (Y, X) else
+  bind (index_buffer Repaired X r (f_values X)) (fun cells =>
+  bind (mapM (get_row X) (read_buffer g cells)) (fun X' =>
+  bind (mapM (get_row Y) (read_buffer g cells)) (fun Y' => Ok (Y', X')))).
+Proof. reflexivity. Qed.
 
 (* --- determinism: the result does not depend on the stale contents ------------------------------------ *)
 Theorem C04_garbage_indep : forall (g1 g2 : nat -> Z) Y X r c,
@@ -46,6 +60,8 @@ Proof. exact subsample_garbage_indep. Qed.
 (* --- sample = per-value prefixes ------------------------------------------------------------------------
    quota = floor(floor(r*n) / #values); the sampled rows are, for the distinct values of X in increasing
    order, the first quota positions carrying that value; all rows when the quota is 0. *)
+(* C04_quota and C04_sampled_indices are DEFINITIONS UNFOLDED (reflexivity), displayed here so that C04_prefix_rows
+   can be read without opening the model; they are not counted as results *)
 Theorem C04_quota : forall X r,
   quota X r = Z.to_nat ((Qnum r * Z.of_nat (length X)) / Zpos (Qden r)) / length (f_values X).
 Proof. reflexivity. Qed.
@@ -95,9 +111,27 @@ Theorem C04_outside_irrelevant : forall (g : nat -> Z) Y Y' X r c,
   entry g Y X r c = entry g Y' X r c.
 Proof. exact entry_outside_irrelevant. Qed.
 
+(* definition unfolded (reflexivity), not a result *)
 Theorem C04_entry_indices : forall X r,
   entry_indices X r = if (Qnum r <? Zpos (Qden r))%Z then sampled_indices X r else seq 0 (length X).
 Proof. reflexivity. Qed.
+
+(* ... and that side condition is NECESSARY: the property's sentence "the score does not change when feature values
+   outside the sampled rows are altered" holds except through the self-pair test, which is made on the full vectors.
+   Witness: Y = X, flag on, ONE unsampled cell of Y changed -> the test switches off, the correction on. *)
+Theorem C04_outside_selfpair_refuted : exists (g : nat -> Z) Y Y' X r c,
+  length Y = length X /\ length Y' = length X /\
+  (forall i, In i (entry_indices X r) -> nth i Y 0%Z = nth i Y' 0%Z) /\
+  Y <> Y' /\ entry g Y X r c <> entry g Y' X r c.
+Proof. exact outside_selfpair_refuted. Qed.
+
+(* --- one transcription: without subsampling (r >= 1) the encoded term structure is the one of the C01-C03
+   model MI/Model.v (enc4 = enc_terms without the ratio; both harnesses evaluate this encoding with the same
+   float64 evaluator, tools/props/c01.py eval_float) *)
+Theorem C04_entry_agrees_full : forall (g : nat -> Z) Y X r c,
+  length Y = length X -> (Qnum r <? Zpos (Qden r))%Z = false ->
+  exists t, entry g Y X r c = Ok t /\ enc4 t = Model.enc (Model.entry Y X c).
+Proof. exact entry_agrees_full. Qed.
 
 (* --- finite score: every argument of np.log is a quotient of two positive integers, every divisor is
    positive *)
@@ -206,6 +240,9 @@ Proof. eexists. split; [vm_compute; reflexivity|]. vm_compute. auto. Qed.
 Print Assumptions C04_safe_subsample.
 Print Assumptions C04_safe.
 Print Assumptions C04_all_written.
+Print Assumptions C04_subsample_reads.
+Print Assumptions C04_outside_selfpair_refuted.
+Print Assumptions C04_entry_agrees_full.
 Print Assumptions C04_garbage_indep.
 Print Assumptions C04_garbage_indep_subsample.
 Print Assumptions C04_quota.
